@@ -19,6 +19,7 @@ import (
 	"strings"
 	"sync"
 	"time"
+	_ "time/tzdata" // zone data embedded: time.LoadLocation works offline
 
 	jsoniter "github.com/json-iterator/go"
 	"github.com/pinealctx/neptune/tex"
@@ -438,6 +439,7 @@ type input struct {
 	Hist  []hstep `json:"hist,omitempty"`  // hist / conc: the encoder calls, in order (conc: G = goroutine)
 	Loops int     `json:"loops,omitempty"` // conc: how often every goroutine repeats its call; par: calls per goroutine; seq: rounds
 	Par   []pstream `json:"par,omitempty"` // par / seq: one stream of inputs per goroutine
+	Zone  string    `json:"zone,omitempty"` // run this input with time.Local set to this zone (embedded time/tzdata)
 }
 
 // one encoder call of a history
@@ -575,10 +577,23 @@ func (r *runner) emit(in input, coq string, nontrivial bool, desc map[string]int
 	rb, _ := json.Marshal(in)
 	desc["op"] = in.Op
 	desc["type"] = in.T
+	if in.Zone != "" {
+		desc["process_zone_time.Local"] = in.Zone
+	}
 	r.e.Emit(vh.Case{Coq: coq, Desc: desc, Class: in.Op + "/" + in.T + "/" + in.Class, Nontrivial: nontrivial, Replay: string(rb)})
 }
 
 func (r *runner) run(in input) {
+	if in.Zone != "" {
+		// the process zone is global: inputs run one after the other, and the parallel classes never carry a zone
+		loc, err := time.LoadLocation(in.Zone)
+		if err != nil {
+			panic("harness: cannot load zone " + in.Zone + ": " + err.Error())
+		}
+		saved := time.Local
+		time.Local = loc
+		defer func() { time.Local = saved }()
+	}
 	switch in.Op {
 	case "dec":
 		tok, _ := hex.DecodeString(in.Tok)
